@@ -22,7 +22,10 @@ for p in sorted(glob.glob(os.path.join(ROOT, "meta", "C*.json"))):
 na_path = os.path.join(ROOT, "meta", "not_applicable.json")
 na = json.load(open(na_path)) if os.path.exists(na_path) else []
 claimed = {c["property_id"] for c in checks}
-na = [x for x in na if x["property_id"] not in claimed]
+reasons = {x["property_id"]: x["reason"] for x in na}
+allp = [json.loads(l)["id"] for l in open(os.path.join(ROOT, "properties.jsonl"))]
+DEFAULT = "check under construction in this session (model, proofs and harness exist or are in progress, see DESIGN.md and notes/); not claimed until ./check passes on the unchanged tree"
+na = [{"property_id": p, "reason": reasons.get(p, DEFAULT)} for p in allp if p not in claimed]
 hooks_path = os.path.join(ROOT, "meta", "hooks.json")
 hooks = json.load(open(hooks_path))
 man = {
